@@ -62,3 +62,14 @@ def iso_weeks_in_year(y):
 def jdn(y, m, d):
     """Julian day number at noon of the date"""
     return rata(y, m, d) + 1721425
+
+
+def iso_week(y, m, d):
+    """ISO 8601 (week-year, week number, weekday) of a date, from the definition: week 1 is the week with the year's first
+    Thursday; weeks start on Monday"""
+    wd = wday(y, m, d)
+    # the Thursday of this date's week decides the week-year
+    thu = rata(y, m, d) - wd + 4
+    ty = from_rata(thu)[0]
+    wk = (thu - rata(ty, 1, 1)) // 7 + 1
+    return ty, wk, wd
